@@ -219,6 +219,7 @@ class _HarnessMixin:
     H_FAIL_RUN = None   # run id for which this plugin raises (multi-run checks)
 
     def _h_log(self, start, end, kw, extra=None):
+        self.__dict__["_h_last_start"] = start
         if self.H_FAIL_RUN is not None and self.H_FAIL_RUN == self.run_id:
             raise InjectedFault(f"injected failure for run {self.run_id}")
         if self.H_LOG is not None:
@@ -233,10 +234,12 @@ class _HarnessMixin:
         if f is None:
             return None
         hit = False
-        ncalls = self.__dict__.get("_h_ncalls", 0)
-        self.__dict__["_h_ncalls"] = ncalls + 1
-        if ncalls < f.get("min_call", 0):
-            return None
+        if "after_start" in f:
+            # only a chunk that is not the first of the stream (a first chunk may start anywhere); position in
+            # the stream, not call order: pool workers compute chunks in any order
+            start = self.__dict__.get("_h_last_start")
+            if start is None or start <= f["after_start"]:
+                return None
         if "chunk" in f:
             hit = chunk_i == f["chunk"]
         elif kw:
